@@ -123,7 +123,14 @@ impl<'s, M: Matcher, S: Sink> SliceByLine<'s, M, S> {
 
     fn byte_count(&mut self) -> u64 {
         match self.core.binary_byte_offset() {
-            Some(offset) if offset < self.core.pos() as u64 => offset,
+            // The search only ends at the binary data when we're asked to
+            // quit there. Otherwise it carries on, and so does the count.
+            Some(offset)
+                if self.core.quits_on_binary()
+                    && offset < self.core.pos() as u64 =>
+            {
+                offset
+            }
             _ => self.core.pos() as u64,
         }
     }
@@ -359,7 +366,14 @@ impl<'s, M: Matcher, S: Sink> MultiLine<'s, M, S> {
 
     fn byte_count(&mut self) -> u64 {
         match self.core.binary_byte_offset() {
-            Some(offset) if offset < self.core.pos() as u64 => offset,
+            // The search only ends at the binary data when we're asked to
+            // quit there. Otherwise it carries on, and so does the count.
+            Some(offset)
+                if self.core.quits_on_binary()
+                    && offset < self.core.pos() as u64 =>
+            {
+                offset
+            }
             _ => self.core.pos() as u64,
         }
     }
